@@ -146,8 +146,14 @@ class Module:
         self.classes = {}
         self.functions = {}
         self.assigns = {}  # module-level simple assignments name -> expr
+        # parent links; the context/operator nodes (Load(), Store(), Add(), ...) are singletons shared by ALL trees and must stay clean
+        shared = (ast.expr_context, ast.operator, ast.cmpop, ast.boolop, ast.unaryop)
         for n in ast.walk(self.tree):
             for c in ast.iter_child_nodes(n):
+                if isinstance(c, shared):
+                    if "_parent" in getattr(c, "__dict__", {}):
+                        del c.__dict__["_parent"]
+                    continue
                 c._parent = n
 
     def comment_lines(self, needle):
